@@ -9,6 +9,7 @@
 package transform // import "go.opentelemetry.io/otel/exporters/otlp/otlplog/otlploghttp/internal/transform"
 
 import (
+	"math"
 	"time"
 
 	cpb "go.opentelemetry.io/proto/otlp/common/v1"
@@ -95,15 +96,15 @@ func ResourceLogs(records []log.Record) []*lpb.ResourceLogs {
 // LogRecord returns an OTLP LogRecord generated from record.
 func LogRecord(record log.Record) *lpb.LogRecord {
 	r := &lpb.LogRecord{
-		TimeUnixNano:         timeUnixNano(record.Timestamp()),
-		ObservedTimeUnixNano: timeUnixNano(record.ObservedTimestamp()),
-		EventName:            record.EventName(),
-		SeverityNumber:       SeverityNumber(record.Severity()),
-		SeverityText:         record.SeverityText(),
-		Body:                 LogAttrValue(record.Body()),
-		Attributes:           make([]*cpb.KeyValue, 0, record.AttributesLen()),
-		Flags:                uint32(record.TraceFlags()),
-		// TODO: DroppedAttributesCount: /* ... */,
+		TimeUnixNano:           timeUnixNano(record.Timestamp()),
+		ObservedTimeUnixNano:   timeUnixNano(record.ObservedTimestamp()),
+		EventName:              record.EventName(),
+		SeverityNumber:         SeverityNumber(record.Severity()),
+		SeverityText:           record.SeverityText(),
+		Body:                   LogAttrValue(record.Body()),
+		Attributes:             make([]*cpb.KeyValue, 0, record.AttributesLen()),
+		DroppedAttributesCount: clampUint32(record.DroppedAttributes()),
+		Flags:                  uint32(record.TraceFlags()),
 	}
 	record.WalkAttributes(func(kv api.KeyValue) bool {
 		r.Attributes = append(r.Attributes, LogAttr(kv))
@@ -116,6 +117,17 @@ func LogRecord(record log.Record) *lpb.LogRecord {
 		r.SpanId = sID[:]
 	}
 	return r
+}
+
+// clampUint32 returns v as a uint32, saturating at the bounds of uint32.
+func clampUint32(v int) uint32 {
+	if v < 0 {
+		return 0
+	}
+	if int64(v) > math.MaxUint32 {
+		return math.MaxUint32
+	}
+	return uint32(v) // nolint: gosec  // Overflow/Underflow checked.
 }
 
 // timeUnixNano returns t as a Unix time, the number of nanoseconds elapsed
